@@ -437,7 +437,10 @@ class LossScenario(explore.Scenario):
               # deadline) when it runs
               'cbCall',
               # six seconds pass (call1's deadline is five)
-              'tick']
+              'tick',
+              # a disconnect callback on a proxy that, when it runs, obtains
+              # a fresh proxy (explicit interface) on the same connection
+              'pgetE', 'pgetK']
 
     def build(self):
         from txdbus import interface as I
@@ -494,7 +497,9 @@ class LossScenario(explore.Scenario):
                 continue
             if e == 'introReply' and not w.intro_serial:
                 continue
-            if e == 'pcbE' and 'E' not in w.proxies:
+            if e in ('pcbE', 'pgetE') and 'E' not in w.proxies:
+                continue
+            if e == 'pgetK' and ('K' not in w.proxies or 'K' in w.dropped):
                 continue
             if e in ('pcbK', 'dropK') and 'K' not in w.proxies:
                 continue
@@ -605,6 +610,23 @@ class LossScenario(explore.Scenario):
                     w.nintro += 1
                     w.completed.add('intro' + name)
                 w.intro_serial = {}
+            elif e in ('pgetE', 'pgetK'):
+                name = e[4:]
+                sink = w.pcbs.setdefault('G' + name, [])
+                prox = w.proxies[name]
+                got = w.proxy_results.setdefault('late' + name, [])
+
+                def pget(p, reason, sink=sink, prox=prox, got=got,
+                         name=name):
+                    sink.append((p is prox, type(reason.value).__name__))
+                    d = conn.getRemoteObject('org.ex.Dest', '/fresh' + name,
+                                             w.iface)
+                    d.addCallback(lambda q: w.proxies.__setitem__(
+                        'late' + name, q) or q)
+                    self._watch(d, got)
+                prox.notifyOnDisconnect(pget)
+                w.active_pcbs.add('G' + name)
+                w.regs['pG' + name] = 1
             elif e == 'pcbE2':
                 w.proxies['E'].notifyOnDisconnect(w.pcbs['E.fn'])
                 w.regs['pE'] += 1
@@ -713,11 +735,11 @@ class LossScenario(explore.Scenario):
                              'after %r: connection disconnect callback %s '
                              '(%s) ran %r' % (hist, name, 'registered' if want
                                               else 'cancelled', inv)))
-        for name in ('E', 'K', 'I', 'I2'):
+        for name in ('E', 'K', 'I', 'I2', 'GE', 'GK'):
             if name not in w.pcbs:
                 continue
             inv = w.pcbs[name]
-            if name in w.dropped:
+            if name.lstrip('G') in w.dropped:
                 continue        # not live any more: nothing demanded
             want = [(True, 'ConnectionDone')] if name in w.active_pcbs else []
             if w.regs.get('p' + name, 0) == 2 and inv == want * 2:
@@ -726,7 +748,10 @@ class LossScenario(explore.Scenario):
                 viol.append(('%s/loss/proxy-callback/%s/%s/ran-%d-times'
                              % (PROP, {'E': 'explicit', 'K': 'known-name',
                                        'I': 'introspected',
-                                       'I2': 'introspected-list'}[name],
+                                       'I2': 'introspected-list',
+                                       'GE': 'explicit-obtaining-a-proxy',
+                                       'GK': 'known-name-obtaining-a-proxy'
+                                       }[name],
                                 'registered' if want else 'cancelled',
                                 len(inv)),
                              'after %r: disconnect callback of live proxy %s '
@@ -868,6 +893,12 @@ def run(ctx):
             max_depth=16, label='loss: proxies only, to the fixpoint')
         explore.explore(
             ctx, LossScenario,
+            {'events': ['proxE', 'proxK', 'proxI', 'introReply', 'pcbE',
+                        'pcbK', 'pcbI', 'pgetE', 'pgetK', 'dropK']},
+            max_depth=12, label='loss: proxies whose callbacks obtain a '
+                                'fresh proxy, to the fixpoint')
+        explore.explore(
+            ctx, LossScenario,
             {'events': ['call0', 'call1', 'call2', 'reply0', 'cbA', 'cbB',
                         'cancelA', 'cbA2', 'cancelA2', 'error1', 'cbCall',
                         'tick']},
@@ -882,6 +913,12 @@ def run(ctx):
                         'pcbK', 'pcbI', 'proxI2', 'pcbI2', 'dropK',
                         'pcancelE', 'pcbE2', 'pcancelE2']},
             max_depth=16, label='loss: proxies only, to the fixpoint')
+        explore.explore(
+            ctx, LossScenario,
+            {'events': ['proxE', 'proxK', 'proxI', 'introReply', 'pcbE',
+                        'pcbK', 'pcbI', 'pgetE', 'pgetK', 'dropK']},
+            max_depth=12, label='loss: proxies whose callbacks obtain a '
+                                'fresh proxy, to the fixpoint')
         explore.explore(
             ctx, LossScenario,
             {'events': ['call0', 'call1', 'call2', 'reply0', 'cbA', 'cbB',
